@@ -405,3 +405,32 @@ fn c17_has_sequences_full() {
     kani::cover!(n == 65);
 }
 
+
+// ---- C14: unchecked trait == checked trait under the documented contracts ----
+#[cfg(feature = "unchecked")]
+#[allow(unsafe_code)]
+#[kani::proof]
+#[kani::unwind(66)]
+fn c14_unchecked_position_array_l8() {
+    let a = any_syms::<8>(64);
+    let b = any_syms::<8>(64);
+    let la = any_len(8);
+    let lb = any_len(8);
+    let log: u8 = kani::any();
+    kani::assume(log <= 31);
+    // normalized strings (score_strings* require a normalized array)
+    let mut i = 3;
+    while i < 8 {
+        kani::assume(!(i < la && a[i] == a[i - 1] && a[i] == a[i - 2] && a[i] == a[i - 3]));
+        i += 1;
+    }
+    let pa = spec_pa::<8>(&a, la);
+    unsafe {
+        assert!(pa.is_equiv_unchecked(&b[..lb]) == pa.is_equiv(&b[..lb]));
+        assert!(pa.has_common_substring_unchecked(&b[..lb]) == pa.has_common_substring(&b[..lb]));
+        assert!(pa.edit_distance_unchecked(&b[..lb]) == pa.edit_distance(&b[..lb]));
+        assert!(pa.score_strings_raw_unchecked(&b[..lb]) == pa.score_strings_raw(&b[..lb]));
+        assert!(pa.score_strings_unchecked(&b[..lb], log) == pa.score_strings(&b[..lb], log));
+    }
+    kani::cover!(la == 8 && lb == 8 && pa.has_common_substring(&b[..lb]));
+}
